@@ -258,6 +258,9 @@ type outcome struct {
 	// mainLast: the operation consists of several statements and the exposed one is the LAST of them
 	// (the real run's last statement event is the one to compare with)
 	mainLast bool
+	// noMain: the operation runs its statements on handles of its own (CreateInBatches): the handle it returns
+	// exposes none of them; only "nothing is sent" is checked
+	noMain bool
 }
 
 // runChain builds the chain on db and executes the finisher; returns the statement.
